@@ -45,6 +45,11 @@ fn parse<T: syn::parse::Parse>(src: &str) -> T {
     syn::parse_str::<T>(src).unwrap_or_else(|e| panic!("verif-parse-error: {e}: {src}"))
 }
 
+/// A trait path the way it is written in a bound: `syn::Path` alone does not parse `Fn(A) -> B`
+fn parse_bound_path(src: &str) -> syn::Path {
+    parse::<syn::TraitBound>(src).path
+}
+
 fn subs_fields(subs: &Option<Substitutions>) -> Vec<String> {
     vec![dbg(subs)]
 }
@@ -88,7 +93,7 @@ fn handle(cmd: &str, args: &[&str]) -> Vec<String> {
         // dump the parse of a source snippet
         "dump" => match args[0] {
             "type" => vec![dbg(&parse::<syn::Type>(args[1]))],
-            "path" => vec![dbg(&parse::<syn::Path>(args[1]))],
+            "path" => vec![dbg(&parse_bound_path(args[1]))],
             "expr" => vec![dbg(&parse::<syn::Expr>(args[1]))],
             "impl" => vec![dbg(&parse::<syn::ItemImpl>(args[1]))],
             "trait" => vec![dbg(&parse::<syn::ItemTrait>(args[1]))],
@@ -144,8 +149,8 @@ fn handle(cmd: &str, args: &[&str]) -> Vec<String> {
         }
         // TraitBound: Eq / Ord / Hash / ToTokens
         "tb" => {
-            let p = TraitBound(parse::<syn::Path>(args[0]));
-            let q = TraitBound(parse::<syn::Path>(args[1]));
+            let p = TraitBound(parse_bound_path(args[0]));
+            let q = TraitBound(parse_bound_path(args[1]));
             let feed = |t: &TraitBound| {
                 use core::hash::Hash;
                 let mut h = RecordingHasher::default();
